@@ -452,7 +452,21 @@ pub fn register_upvalue<T>(
     if is_local {
         // locals are addressed relative to the current call frame
         let offset = stack_offset(vm);
-        let location = &vm.runtime_data.value_stack.as_slice()[offset + index as usize];
+        let location = match vm
+            .runtime_data
+            .value_stack
+            .as_slice()
+            .get(offset + index as usize)
+        {
+            Some(location) => location,
+            // the variable's slot is gone (e.g. a callee that was given too few arguments
+            // consumed it)
+            None => {
+                return Err(ExecutionErrorPayload::invalid_argument(
+                    "The captured variable is not on the stack",
+                ))
+            }
+        };
         let location = (location as *const Value).cast_mut();
         unsafe {
             // look for an existing upvalue to the same location
